@@ -7,13 +7,21 @@ claimed = {
    note="Assumed contracts: api.ReplicateStore Put/Remove are atomic per key; BaseTaskMsg.IsReady == set equality for duplicate-free lists; lo.Union yields the union. Reload from the store is not yet under contract. metaLock: lock-held discipline (lockonly), contracts are sequential.",
    design="3 (C17)"),
  "C08": dict(
-   text="Deductive proof (SSA->SMT VCs, all inputs) that the real getObjState implements the create/drop/re-create decision stated in the property, for all orders of the three timestamps and both presence bits over full uint64.",
-   note="Trusted: go/ssa semantics, solvers, logging calls modify nothing. Not decided: truth of the recorded times (C15 / downstream probes).",
+   text="Deductive proof on the real writer code: getObjState equals the decision function written from the property (all orders of the three timestamps and both presence bits, full uint64); the three readiness functions decide from the recorded times keyed by source names and probe the mapped names only when unknown, recording a successful probe under the source create key; the cascade WaitObjReady skips exactly on a recorded drop at the first undecided level; and every skip-aware operation (create/drop/alter index, load/release collection, create/drop partition, create/drop collection) issues no downstream request when a drop is recorded, exactly one when the incarnation is recorded created, and returns no error for a failed call on an object recorded dropped meanwhile. Findings F21 (alterIndex had no re-check) fixed.",
+   note="Create/drop tables are ghost maps attached to core/util.Map objects (built-in model, trusted). DataHandler methods are trusted interface contracts (ghost call record; an operation call is a synchronisation point where other DDL handlers may update the tables). retry.Do model: >=1 attempt. Partition-list operations: skip filtering of individual partitions is not yet proved (only request count/routing). Not decided: truth of the recorded times (C15 / downstream probes).",
    design="3 (C08)"),
  "C06": dict(
    text="Deductive proof (with the zero-annotation no-panic sweep) on the real hand-over path of the reader: innerHandleReplicateMsg never panics whatever handlePack returns (nil included), emits at most one pack labelled with the stream's task/collection/channel, SendTargetMsg enqueues exactly the given pack, and sendErrEvent emits exactly one ReplicateError event naming the owning task. Two genuine defects (F1 nil dereference, F2 events without task id) were found by failing obligations, reproduced on the real code and repaired by fix: commits.",
    note="handlePack itself is not yet verified: at its call site only the frame `modifies * except out` is assumed. Server-side pause path (pauseTaskWithReason, event loop, batch callback) not yet under contract (DESIGN.md section 10). Channel sends are ghost events; goroutine interleavings are out of reach.",
    design="3 (C06)"),
+ "C09": dict(
+   text="Deductive proof on the real writer code: mapDBAndCollectionName returns the task's name mapping applied to the source names (exact entry, else whole-database entry, else unchanged; default database for empty) - proved over the util.Map.Range loop for all tables whose applicable entries agree; every DDL/DCL operation, API event and readiness probe under contract routes ReplicateParam.Database and the request's own names to that result while bookkeeping keys use the source names. Findings F5 (releasePartitions routed with the source database) and F6 (alterIndex routed to the default database) were found by failing obligations, reproduced on the real code and fixed.",
+   note="Assumption agreeNames (entries that apply to the same names agree) is not enforced by request validation. Not yet under contract: the five DML rewrites in HandleReplicateMessage, flush, reader-side TargetClient, MilvusDataHandler (routes by param.Database, read only).",
+   design="3 (C09)"),
+ "C20": dict(
+   text="Deductive proof on the real writer code that each supported operation message / API event that is not skipped produces exactly one downstream request of its kind, carrying the replication stamp of the pack (same MsgBase / ReplicateInfo object) and the source's identity fields (index, field, params, replica number, user/role/privilege fields; pass-through requests are the same object with only names and stamp changed - frame-checked), and that HandleOpMessagePack rejects packs with no or more than one message without any downstream call and returns the last end position's message id.",
+   note="Dispatch through the opMessageFuncs/apiEventFuncs tables is a dynamic call (havoc): table totality is not yet proved. Partition lists: only length bound, not yet the exact filtered list. createCollection schema: entity.Schema.ReadProto is a trusted contract. Reader-side event constructors not yet under contract.",
+   design="3 (C20)"),
  "C12": dict(
    text="Deductive proof of the key algebra of the etcd metadata backend on the real key functions: each key function equals its spec (path.Join modelled), keys are injective in task and collection, the per-task scan prefix covers only that task's keys (ids sharing a prefix are not touched), task-info and position keyspaces are disjoint, and roots that are not '/'-boundary prefixes of each other are isolated.",
    note="Proved for identifiers without '/', '.', '..' and clean root paths (stated as requires/assumes). Trusted: path.Join model, decimal rendering of int64 is injective and '/'-free, etcd range semantics. Not yet under contract in this round: MySQL SQL text, record read-modify-write, transactional delete (see DESIGN.md section 10).",
